@@ -29,6 +29,9 @@ type PFile struct {
 	// DeliverAs: the file is handed to the merger under this name instead of
 	// Name (two different files under one name; C12 only).
 	DeliverAs string `json:"deliver_as,omitempty"`
+	// LongLine: a comment line of that many bytes follows the header (sizes
+	// beyond buffer defaults such as bufio.Scanner's 64 KiB token limit)
+	LongLine int `json:"long_line,omitempty"`
 }
 
 func (f *PFile) sep(i int) string {
@@ -83,6 +86,9 @@ func (f *PFile) contents() string {
 		sb.WriteString("model\n  schema 1.1\n")
 	} else {
 		sb.WriteString("module " + f.Module + "\n")
+	}
+	if f.LongLine > 0 {
+		sb.WriteString("# " + strings.Repeat("long comment ", f.LongLine/13+1) + "\n")
 	}
 	var body strings.Builder
 	for _, b := range f.Blocks {
@@ -245,6 +251,9 @@ func genModuleSet(r *rng, wantConflicts int) *wlMerge {
 	}
 	// a module file must declare something the grammar accepts; empty files
 	// (header only) are legal modules and are kept.
+	if r.chance(2) {
+		files[r.intn(len(files))].LongLine = []int{5000, 70000, 140000}[r.intn(3)]
+	}
 	wl.Files = files
 
 	// --- conflicts
